@@ -519,7 +519,7 @@ pub const OTHER: &[&str] = &[
     "ReduceLogSumExp", "ReduceSumSquare", "ArgMax", "ArgMin", "CumSum", "TopK", "Trilu", "DepthToSpace", "OneHot",
     "NonZero", "Einsum", "Shape", "Size", "Range", "EyeLike", "ReverseSequence", "MatMulInteger",
     "DequantizeLinear", "QuantizeLinear", "DynamicQuantizeLinear", "GeluMs", "QuickGelu", "BiasGelu", "FastGelu",
-    "SequenceInsert", "SequenceErase", "GridSample", "Dropout", "ConstantOfShape", "FusedSilu", "FusedAddSoftmax", "MatMulWide", "GemmWide", "MatMulIntegerWide", "EinsumWide", "ConvWide",
+    "SequenceInsert", "SequenceErase", "GridSample", "Dropout", "ConstantOfShape", "FusedSilu", "FusedAddSoftmax", "GRU", "LSTM", "Attention", "MatMulWide", "GemmWide", "MatMulIntegerWide", "EinsumWide", "ConvWide",
 ];
 
 pub fn all_names() -> Vec<&'static str> {
@@ -1200,6 +1200,56 @@ pub fn gen(name: &'static str, rng: &mut Rng) -> Option<Case> {
         "ConstantOfShape" => {
             let sh = rshape(rng, 3, 0);
             Case::new(name, vec![Some(ivec(&sh.iter().map(|&x| x as i64).collect::<Vec<_>>()))]).data(&[])
+        }
+        "GRU" | "LSTM" => {
+            let gates = if name == "GRU" { 3 } else { 4 };
+            let (seq, batch, inp, hid) = (1 + rng.usize_below(3), 1 + rng.usize_below(3), 1 + rng.usize_below(4), 1 + rng.usize_below(3));
+            let dir = *rng.pick(&["forward", "reverse", "bidirectional"]);
+            let nd = if dir == "bidirectional" { 2 } else { 1 };
+            let small = |rng: &mut Rng, sh: &[usize]| -> Value {
+                Tensor::from_data(sh, (0..numel(sh)).map(|_| (rng.f32_unit() - 0.5) * 1.5).collect::<Vec<f32>>()).into()
+            };
+            let mut v = vec![
+                Some(small(rng, &[seq, batch, inp])),
+                Some(small(rng, &[nd, gates * hid, inp])),
+                Some(small(rng, &[nd, gates * hid, hid])),
+                rng.chance(1, 2).then(|| small(rng, &[nd, 2 * gates * hid])),
+                None,
+                rng.chance(1, 2).then(|| small(rng, &[nd, batch, hid])),
+            ];
+            if name == "LSTM" {
+                v.push(rng.chance(1, 2).then(|| small(rng, &[nd, batch, hid])));
+            }
+            Case::new(name, v)
+                .attr("hidden_size", Attr::Int(hid as i64))
+                .attr("direction", s(dir))
+                .outs(if name == "GRU" { 2 } else { 3 })
+        }
+        "Attention" => {
+            let (b, h, sq, skv, d, dv) = (
+                1 + rng.usize_below(2),
+                1 + rng.usize_below(3),
+                1 + rng.usize_below(4),
+                1 + rng.usize_below(4),
+                1 + rng.usize_below(4),
+                1 + rng.usize_below(4),
+            );
+            let past = rng.chance(1, 2).then(|| rng.usize_below(3));
+            let total = skv + past.unwrap_or(0);
+            let mask = rng.chance(1, 3).then(|| tfi(rng, &[sq, total], -2, 0));
+            let mut v = vec![Some(tfm(rng, &[b, h, sq, d])), Some(tfm(rng, &[b, h, skv, d])), Some(tfm(rng, &[b, h, skv, dv])), mask];
+            let mut n_out = 1;
+            if let Some(p) = past {
+                v.push(Some(tfm(rng, &[b, h, p, d])));
+                v.push(Some(tfm(rng, &[b, h, p, dv])));
+                n_out = 3;
+            }
+            let mut c = Case::new(name, v).outs(n_out);
+            c.onnx = "Attention";
+            if rng.chance(1, 3) {
+                c = c.attr("is_causal", Attr::Int(1));
+            }
+            c
         }
         "MatMulWide" => {
             let (m, k, n) = wide_mkn(rng);
